@@ -41,6 +41,14 @@ pub struct Case {
     pub lines: Vec<Vec<Item>>,
     pub stmts: Vec<Item>,
     pub macros: Vec<(String, String)>,
+    /// lines of a header `lits.h` (global items and string-valued macros), included after the
+    /// first `include_after` global lines of the main file
+    #[serde(default)]
+    pub header: Vec<Vec<Item>>,
+    #[serde(default)]
+    pub header_macros: Vec<(String, String)>,
+    #[serde(default)]
+    pub include_after: usize,
 }
 
 impl Reducible for Case {
@@ -57,6 +65,16 @@ impl Reducible for Case {
                     out.push(c);
                 }
             }
+        }
+        for i in 0..self.header.len() {
+            let mut c = self.clone();
+            c.header.remove(i);
+            out.push(c);
+        }
+        for i in 0..self.header_macros.len() {
+            let mut c = self.clone();
+            c.header_macros.remove(i);
+            out.push(c);
         }
         for i in 0..self.stmts.len() {
             let mut c = self.clone();
@@ -237,35 +255,49 @@ fn gen_char_piece(g: &mut G) -> Piece {
     }
 }
 
-pub fn gen_case(g: &mut G, ex: &Excl) -> Case {
-    let mut k = 0u32;
+fn gen_global_lines(g: &mut G, ex: &Excl, k: &mut u32, nl: usize) -> Vec<Vec<Item>> {
     let mut lines = vec![];
-    let nl = 1 + g.below(5);
     for _ in 0..nl {
         let per = 1 + g.below(3);
         let mut items = vec![];
         for _ in 0..per {
-            k += 1;
+            *k += 1;
             items.push(match g.below(10) {
                 0..=4 => {
                     let parts = 1 + g.below(3);
-                    Item::Array(k, (0..parts).map(|_| gen_lit(g, 12, ex)).collect())
+                    Item::Array(*k, (0..parts).map(|_| gen_lit(g, 12, ex)).collect())
                 }
                 5 | 6 => {
                     let n = 1 + g.below(4);
-                    Item::Table(k, (0..n).map(|_| gen_lit(g, 8, ex)).collect())
+                    Item::Table(*k, (0..n).map(|_| gen_lit(g, 8, ex)).collect())
                 }
                 _ => {
                     let mut p = gen_char_piece(g);
                     if ex.has("macro_in_char_constant") && p == Piece::Ch(b'A') {
                         p = Piece::Ch(b'B');
                     }
-                    Item::CharConst(k, p)
+                    Item::CharConst(*k, p)
                 }
             });
         }
         lines.push(items);
     }
+    lines
+}
+
+pub fn gen_case(g: &mut G, ex: &Excl) -> Case {
+    let mut k = 0u32;
+    let nl = 1 + g.below(5);
+    let lines = gen_global_lines(g, ex, &mut k, nl);
+    // one case in three has a header with literals of its own
+    let (header, header_macros, include_after) = if g.chance(1, 3) {
+        let nh = 1 + g.below(3);
+        let h = gen_global_lines(g, ex, &mut k, nh);
+        let hm = if g.chance(1, 2) { vec![("HSTR".to_string(), "\"header text\"".to_string())] } else { vec![] };
+        (h, hm, g.below(lines.len() + 1))
+    } else {
+        (vec![], vec![], 0)
+    };
     let mut stmts = vec![];
     let ns = g.below(4);
     for _ in 0..ns {
@@ -288,7 +320,39 @@ pub fn gen_case(g: &mut G, ex: &Excl) -> Case {
     if g.chance(1, 2) {
         macros.push(("A".to_string(), "5".to_string()));
     }
-    Case { lines, stmts, macros }
+    Case { lines, stmts, macros, header, header_macros, include_after }
+}
+
+fn item_text(it: &Item) -> String {
+    match it {
+        Item::Array(k, parts) => {
+            let lits: Vec<String> = parts.iter().map(|l| format!("\"{}\"", spell(l))).collect();
+            format!("const char s{}[] = {};", k, lits.join(" "))
+        }
+        Item::Table(k, parts) => {
+            let lits: Vec<String> = parts.iter().map(|l| format!("\"{}\"", spell(l))).collect();
+            format!("const char *t{}[] = {{{}}};", k, lits.join(", "))
+        }
+        Item::CharConst(k, p) => format!("const char c{} = '{}';", k, spell(&vec![p.clone()])),
+        Item::CallArg(l) => format!("ff(\"{}\");", spell(l)),
+        Item::Assign(l) => format!("pp = \"{}\";", spell(l)),
+        Item::Asm(t) => format!("asm(\"{}\");", t),
+    }
+}
+
+/// the text of `lits.h` (empty when the case has no header)
+pub fn header_text(c: &Case) -> String {
+    let mut s = String::new();
+    s.push_str("// literals of the header\n");
+    for (n, v) in &c.header_macros {
+        s.push_str(&format!("#define {} {}\n", n, v));
+    }
+    for l in &c.header {
+        let parts: Vec<String> = l.iter().map(item_text).collect();
+        s.push_str(&parts.join(" "));
+        s.push('\n');
+    }
+    s
 }
 
 pub fn source(c: &Case) -> String {
@@ -297,31 +361,22 @@ pub fn source(c: &Case) -> String {
         s.push_str(&format!("#define {} {}\n", n, v));
     }
     s.push_str("char *pp;\nvoid ff(char *q) { }\n");
-    let item = |it: &Item| -> String {
-        match it {
-            Item::Array(k, parts) => {
-                let lits: Vec<String> = parts.iter().map(|l| format!("\"{}\"", spell(l))).collect();
-                format!("const char s{}[] = {};", k, lits.join(" "))
-            }
-            Item::Table(k, parts) => {
-                let lits: Vec<String> = parts.iter().map(|l| format!("\"{}\"", spell(l))).collect();
-                format!("const char *t{}[] = {{{}}};", k, lits.join(", "))
-            }
-            Item::CharConst(k, p) => format!("const char c{} = '{}';", k, spell(&vec![p.clone()])),
-            Item::CallArg(l) => format!("ff(\"{}\");", spell(l)),
-            Item::Assign(l) => format!("pp = \"{}\";", spell(l)),
-            Item::Asm(t) => format!("asm(\"{}\");", t),
+    let has_header = !c.header.is_empty() || !c.header_macros.is_empty();
+    for (i, l) in c.lines.iter().enumerate() {
+        if has_header && i == c.include_after.min(c.lines.len()) {
+            s.push_str("#include \"lits.h\"\n");
         }
-    };
-    for l in &c.lines {
-        let parts: Vec<String> = l.iter().map(item).collect();
+        let parts: Vec<String> = l.iter().map(item_text).collect();
         s.push_str(&parts.join(" "));
         s.push('\n');
+    }
+    if has_header && c.include_after >= c.lines.len() {
+        s.push_str("#include \"lits.h\"\n");
     }
     s.push_str("void main()\n{\n");
     for st in &c.stmts {
         s.push_str("  ");
-        s.push_str(&item(st));
+        s.push_str(&item_text(st));
         s.push('\n');
     }
     s.push_str("}\n");
@@ -353,7 +408,7 @@ pub fn check(case: &Case, st: &mut Stats, ex: &Excl) -> Result<(), String> {
     if ex.has("bslash_run_before_quote") {
         let bad = |l: &Lit| l.windows(2).any(|w| w[0] == Piece::Esc('\\') && w[1] == Piece::Esc('"'));
         let mut hit = false;
-        for it in case.lines.iter().flatten().chain(case.stmts.iter()) {
+        for it in case.header.iter().flatten().chain(case.lines.iter().flatten()).chain(case.stmts.iter()) {
             match it {
                 Item::Array(_, p) | Item::Table(_, p) => hit |= p.iter().any(bad),
                 Item::CallArg(l) | Item::Assign(l) => hit |= bad(l),
@@ -367,7 +422,7 @@ pub fn check(case: &Case, st: &mut Stats, ex: &Excl) -> Result<(), String> {
     }
     if ex.has("macro_in_char_constant") {
         let defined: Vec<&str> = case.macros.iter().map(|m| m.0.as_str()).collect();
-        for it in case.lines.iter().flatten() {
+        for it in case.header.iter().flatten().chain(case.lines.iter().flatten()) {
             if let Item::CharConst(_, Piece::Ch(c)) = it {
                 if defined.contains(&(*c as char).to_string().as_str()) {
                     st.count("excluded:macro_in_char_constant");
@@ -377,7 +432,15 @@ pub fn check(case: &Case, st: &mut Stats, ex: &Excl) -> Result<(), String> {
         }
     }
     let src = source(case);
-    let cap = match cc::compile_str(&src, &Opts::o(1)) {
+    let mut opts = Opts::o(1);
+    let dir;
+    if !case.header.is_empty() || !case.header_macros.is_empty() {
+        dir = crate::tx::TempDir::new("c09");
+        dir.write("lits.h", &header_text(case));
+        opts.include_dirs.push(dir.path());
+        st.count("label:header-with-literals");
+    }
+    let cap = match cc::compile_str(&src, &opts) {
         Outcome::Ok(c) => c,
         Outcome::Err(e) => {
             // "for every literal the compiler accepts": a rejection is not a C09 violation
@@ -404,7 +467,7 @@ pub fn check(case: &Case, st: &mut Stats, ex: &Excl) -> Result<(), String> {
             false
         }
     };
-    for it in case.lines.iter().flatten().chain(case.stmts.iter()) {
+    for it in case.header.iter().flatten().chain(case.lines.iter().flatten()).chain(case.stmts.iter()) {
         match it {
             Item::Array(k, parts) => {
                 st.count("literals");
@@ -526,7 +589,7 @@ pub fn run(ctx: &mut RunCtx) -> i32 {
         violations.push(Violation {
             class,
             detail: f.reason.clone(),
-            replay: json!({"property": "C09", "kind": "c09", "reason": f.reason, "source": source(&f.minimal), "case": f.minimal}),
+            replay: json!({"property": "C09", "kind": "c09", "reason": f.reason, "source": source(&f.minimal), "header lits.h": header_text(&f.minimal), "case": f.minimal}),
         });
     }
     let s = Summary {
